@@ -425,6 +425,8 @@ def signature(f, ev, trace, prog):
     cl = f['clause']
     if f.get('memo') or cl.startswith('C03.memo'):
         return 'stale-memo' if memo_trigger(trace, f['l'] - 1) else None
+    if cl == 'C04.span.nested_early':
+        return 'nested-block-early-start'
     if cl == 'C05.iso.link.late_member':
         return 'group-member-copied-late'
     if cl.startswith('C07.') and ev.get('ev') == 'Obs' and ('<<-1,' in f['info'] or cl in ('C07.monotone', 'C07.filter.qubit', 'C07.filter.tag', 'C07.partition')):
@@ -439,12 +441,44 @@ def signature(f, ev, trace, prog):
     return None
 
 
+def compact(prog):
+    out = []
+    for s_ in prog:
+        m = s_.get('m') or {}
+        L = s_.get('link') or {}
+        bits = [s_['a'], s_.get('c', ''), s_.get('id', ''), s_.get('s', '')]
+        if m.get('kind'):
+            bits += [m['kind'], str(m['qs']), str(m['chans']), str(m['dur']), m.get('tag', '')]
+        if L.get('k') == 'one':
+            bits += ['%s->%s' % (L['rt'], L['ref'])]
+        if s_['a'] == 'NewCircuit':
+            bits += ['rep=%s' % s_['rep']]
+        if s_.get('key'):
+            bits += [s_['key'], str(s_['val'])]
+        if s_.get('what'):
+            bits += [str(s_['what'])]
+        out.append(' '.join(b for b in bits if b != ''))
+    return out
+
+
 def replay(pid, path):
     d = json.load(open(path))
-    for f in d['failures'][:3]:
+    for f in d['failures'][:2]:
         prog = f['replay']['program']
         tr = execute([prog])[0]
         fails, _ = validate([tr], nchunks=1)
-        print('program:', json.dumps(prog)[:2000])
+        print('program:')
+        for line in compact(prog):
+            print('   ', line)
         for x in fails:
-            print('  ', x['clause'], x['obj'], x['info'])
+            print('  FAILED', x['clause'], x['obj'], x['info'][:300], 'event', x['l'])
+            e = tr[x['l'] - 1]
+            if e['ev'] == 'Obs':
+                for i in e['snap']['order']:
+                    o = e['snap']['leaves'][i]
+                    print('      leaf', i, o['kind'], o['qs'], 'home', o['home'], 'start', o['start'], 'fresh', o.get('start_c'), 'dur', o['dur_v'], 'end', o['end'],
+                          o['rlink']['k'], o['rlink']['ref'] or o['rlink']['refs'], o['rlink']['rt'])
+                for i, o in e['snap']['comps'].items():
+                    print('      block', i, 'home', o['home'], 'start', o['start'], o.get('start_c'), 'dur', o['dur_v'], o.get('dur_c'), 'rep', o['rep'],
+                          o['rlink']['k'], o['rlink']['ref'] or o['rlink']['refs'], o['rlink']['rt'], o['members'])
+            break
